@@ -207,6 +207,10 @@ def do_op(w, op, flow=None):
     for part in op.split('|'):
         ok = trigger(w, part, flow) or ok
     w.deliver_all()
+    # a few seconds pass before the next operation (whatever a daemon postponed by a second or two happens now)
+    for _ in range(2):
+        w.step(('tick', 1.6))
+        w.deliver_all()
     return ok
 
 
